@@ -332,7 +332,7 @@ class Execution:
 
         def handle(mid, tname, kind, pl):  # noqa: C901, PLR0912
             nonlocal msg_n, api_in_inv, outcome, dseq, inflight_api, active_fns, idle_api
-            if kind in ("clock", "targeted_attached", "contract", "contracts_attached", "thread_exc"):
+            if kind in ("clock", "targeted_attached", "contract", "contracts_attached", "thread_exc", "lockorder", "lockorder_self", "lockorder_attached"):
                 self.rec(kind, **pl)
                 return
             n = msg_n
